@@ -129,6 +129,13 @@ def run(P, R, tier):
             for st2, t, v, k in stores(n):
                 if isinstance(t, ast.Name) and t.id == ubm and isinstance(v, ast.Attribute) and v.attr == "ubm":
                     unwrap = n
+                    # the replacement happens exactly when the trainer *is* "map"
+                    pol_ok = False
+                    for test, polarity in guards_of(du.stmt_of(st2)):
+                        if isinstance(test, ast.Compare) and len(test.ops) == 1 and "trainer" in src(test) and any(isinstance(c, ast.Constant) and c.value == "map" for c in ast.walk(test)):
+                            if (isinstance(test.ops[0], (ast.Eq, ast.In)) and polarity) or (isinstance(test.ops[0], (ast.NotEq, ast.NotIn)) and not polarity):
+                                pol_ok = True
+                    R.check(pol_ok, "DOM.unwrap-when-map", KEY, f"`{src(st2)}` under `{src(n.test)}`", "prior taken when the trainer is 'map'", "the MAP -> prior replacement is not executed exactly for MAP machines (inverted or different test): a MAP machine is scored with its own parameters, an ML machine is dereferenced to its (absent) prior", st2.lineno)
     if unwrap is None:
         R.violation("DOM.unwrap", KEY, f"if {ubm}.trainer == 'map': {ubm} = {ubm}.ubm", "a MAP-adapted machine passed as UBM is no longer replaced by its prior: scores differ between the adapted machine and its prior")
     else:
